@@ -54,7 +54,7 @@ fn mutate_bytes(rng: &mut Rng, data: &mut Vec<u8>) {
             .chain(data.iter().enumerate().filter(|(_, b)| **b == b'\n').map(|(i, _)| i + 1))
             .collect();
         let pos = if data.is_empty() { 0 } else { rng.below(data.len() + 1) };
-        match rng.below(16) {
+        match rng.below(17) {
             0 => {
                 // insert a token-built line at a line start
                 let at = *rng.pick(&starts);
@@ -140,6 +140,18 @@ fn mutate_bytes(rng: &mut Rng, data: &mut Vec<u8>) {
                 let pf = *rng.pick(&["", "-", "é", "// ", "\u{a0}"]);
                 let ws = *rng.pick(&["", " ", "\t", "\u{2003}"]);
                 let l = format!("{ws}{pf}TXTPP#{name} {arg}\n");
+                data.splice(at..at, l.into_bytes());
+            }
+            15 => {
+                // a multi-line-capable directive with a non-ASCII prefix, followed by a line of
+                // spaces that is about as long as the prefix (in characters or in bytes)
+                let at = *rng.pick(&starts);
+                let pf = *rng.pick(&["é ", "✓", "→ ", "// → ", "ü", "«»", "\u{a0}x"]);
+                let name = *rng.pick(&["write", "run", "temp", ""]);
+                let ws = *rng.pick(&["", " ", "\t"]);
+                let k = rng.range(pf.chars().count().saturating_sub(1), pf.len() + 1);
+                let tail = *rng.pick(&["", "é", "x", "✓y"]);
+                let l = format!("{ws}{pf}TXTPP#{name} arg\n{ws}{}{tail}\n", " ".repeat(k));
                 data.splice(at..at, l.into_bytes());
             }
             14 => {
